@@ -894,17 +894,21 @@ def extra(tier, seed):
 # ------------------------------------------------------------- shrink help
 
 
+_SIMPLIFY = {"left": 900}  # executions spent on message shrinking per run (a widespread defect makes many buckets)
+
+
 def simplify(trace, pred):
     """Shrink the single remaining message (drop lines) while every original
     (clause, sig) pair is still reported."""
     steps = trace.get("steps") or []
-    if len(steps) != 1 or "raw" not in steps[0]:
+    if len(steps) != 1 or "raw" not in steps[0] or _SIMPLIFY["left"] <= 0:
         return trace
     want = {(x.clause, x.sig) for x in execute(trace).violations}
     if not want:
         return trace
 
     def ok(t):
+        _SIMPLIFY["left"] -= 1
         got = {(x.clause, x.sig) for x in execute(t).violations}
         return want <= got
 
